@@ -33,7 +33,12 @@ RULE = (
     "Configuration changes are followed by a generated gap of 1..500 ms (bursts: two changes aimed at two different "
     "existing uploads land close together without a settle) and every executor job (file open/read/close, exists, "
     "getsize, scans) takes a generated virtual time of 0 / 50 / 150 / 300 ms, so that aborting an UPLOADING transfer "
-    "is slow and further changes arrive while a management cycle is suspended inside its reconciliation. "
+    "is slow and further changes arrive while a management cycle is suspended inside its reconciliation. Friend / "
+    "block lists are changed in place or by assigning a new set / dict; the same user repeats a shares / search / "
+    "directory request directly before and after a friend or block change for that user (nothing in between); up to "
+    "3 application listeners (sync raising / async raising / harmless; priority in front of or behind the "
+    "library's own listeners) are registered on SharedDirectoryChangeEvent, FriendListChangedEvent, "
+    "BlockListChangedEvent, ScanCompleteEvent: the library has to reconcile whatever they do. "
     "Oracle = reference entitlement computed from the harness' own model of the configuration: visible(u,f) iff the "
     "innermost shared directory containing f admits u; may_upload(u,f) iff visible and u not blocked for UPLOADS. At "
     "the scripted peers: every PeerSearchReply.results / PeerSharesReply.directories / "
@@ -116,7 +121,12 @@ SETTLE = 2.0
 # file system makes aborting an UPLOADING transfer take time (the cancelled task closes its file handle), so that a
 # management cycle is suspended inside manage_shares_changed() while further changes arrive
 XDELAYS = [0.0, 0.0, 0.05, 0.15, 0.3]
-GAPS = [1, 5, 20, 50, 100, 150, 200, 300, 500]      # ms between a configuration change and the next operation
+GAPS = [1, 5, 20, 50, 100, 150, 200, 300, 500]
+# application listeners registered on the client's event bus: (event, behaviour, priority); library listeners have
+# priority 100 and are registered first, a lower priority runs in front of them
+LISTENER_EVENTS = ['SharedDirectoryChangeEvent', 'FriendListChangedEvent', 'BlockListChangedEvent', 'ScanCompleteEvent']
+LISTENER_KINDS = ['sync-raises', 'async-raises', 'sync-ok']
+LISTENER_PRIOS = [0, 50, 99, 100, 150]      # ms between a configuration change and the next operation
 STALE = 'moved-item-keeps-old-directory'
 _TMP_PARENT = '/dev/shm' if os.path.isdir('/dev/shm') and os.access('/dev/shm', os.W_OK) else None
 
@@ -324,6 +334,33 @@ def _burst(draw, m, targets):
     return [a, b]
 
 
+@st.composite
+def _rebrowse(draw, m):
+    """The same user asks, a friend/block change for that user lands (nothing else in between), the user asks
+    again: the second answer must reflect the change."""
+    u = draw(st.integers(0, 2))
+    what = draw(st.sampled_from(['shares', 'shares', 'shares', 'shares', 'search', 'dirreq']))
+
+    def req():
+        if what == 'shares':
+            return {'t': 'shares', 'u': u}
+        if what == 'search':
+            return {'t': 'search', 'u': u, 'c': draw(st.integers(0, len(CARRIERS) - 1)), 'q': 0}
+        d = draw(st.sampled_from(sorted(m.shared))) if m.shared else 0
+        # named through its own alias (the deepest enclosing candidate is the directory itself)
+        return {'t': 'dirreq', 'u': u, 'd': d, 'via': sum(1 for cd in CAND if CAND[d][:len(cd)] == cd) - 1}
+    first = req()
+    if draw(st.integers(0, 9)) < 6:
+        change = {'t': 'friend', 'u': u, 'add': u not in m.friends, 'assign': draw(st.booleans())}
+    else:
+        flag = SHARES if what != 'search' else SEARCHES
+        cur = m.blocked.get(u, 0)
+        change = {'t': 'block', 'u': u, 'flags': (cur & ~flag) if cur & flag else (cur | flag),
+                  'rm': draw(st.booleans()), 'assign': draw(st.booleans())}
+    change['gap'] = draw(st.sampled_from([1, 5, 20, 50, 300]))
+    return [first, change, req()]
+
+
 def _apply_to_model(m, op):
     """Generation-time bookkeeping (approximate: index effects are ignored)."""
     t = op['t']
@@ -372,9 +409,16 @@ def case_strategy(draw, avoid=False):
                     ops.append(op)
                 ops.append({'t': 'adv', 'dt': 3})
                 continue
+        if len(ops) + 3 <= 12 and draw(st.integers(0, 9)) < 2:
+            for op in draw(_rebrowse(m)):
+                _apply_to_model(m, op)
+                ops.append(op)
+            continue
         op = draw(_op(m, targets))
         if op['t'] in ('block', 'friend', 'setmode', 'adddir', 'rmdir') and draw(st.integers(0, 2)) == 0:
             op['gap'] = draw(st.sampled_from(GAPS))
+        if op['t'] in ('block', 'friend') and draw(st.integers(0, 3)) == 0:
+            op['assign'] = True
         _apply_to_model(m, op)
         ops.append(op)
         if op['t'] in ('queue', 'treq') and VARIANTS[op['var']] == 'exact' and m.may_upload(op['u'], op['f']) \
@@ -389,6 +433,9 @@ def case_strategy(draw, avoid=False):
         'behav': [draw(st.sampled_from([0, 0, 1, 1, 1, 2, 2, 2, 3])) for _ in USERS],
         'limit': draw(st.sampled_from([0, 1])), 'slots': draw(st.sampled_from([1, 2, 2, 3])),
         'xdelay': draw(st.integers(0, len(XDELAYS) - 1)),
+        'listeners': draw(st.lists(st.tuples(
+            st.sampled_from([0, 0, 0, 1, 2, 3]), st.sampled_from([0, 0, 0, 1, 2]),
+            st.integers(0, len(LISTENER_PRIOS) - 1)).map(list), max_size=3)) if draw(st.integers(0, 9)) < 4 else [],
         'avoid': avoid, 'ops': ops[:12],
     }
 
@@ -461,9 +508,11 @@ def _sanitise(case):
             ops.append({'t': t, 'u': g('u') % 3, 'f': g('f') % len(FILES), 'via': g('via') % 3,
                         'var': g('var') % len(VARIANTS)})
         elif t == 'friend':
-            ops.append({'t': t, 'u': g('u') % 3, 'add': bool(op.get('add')), 'gap': gap})
+            ops.append({'t': t, 'u': g('u') % 3, 'add': bool(op.get('add')), 'gap': gap,
+                        'assign': bool(op.get('assign'))})
         elif t == 'block':
-            ops.append({'t': t, 'u': g('u') % 3, 'flags': g('flags') % 64, 'rm': bool(op.get('rm')), 'gap': gap})
+            ops.append({'t': t, 'u': g('u') % 3, 'flags': g('flags') % 64, 'rm': bool(op.get('rm')), 'gap': gap,
+                        'assign': bool(op.get('assign'))})
         elif t == 'setmode':
             ops.append({'t': t, 'd': g('d') % 3, 'mode': g('mode') % 3,
                         'users': None if op.get('users') is None else _users(op.get('users')), 'gap': gap})
@@ -481,7 +530,13 @@ def _sanitise(case):
             ops.append({'t': t, 'x': g('x') % 16, 'act': act if act in ('abort', 'pause', 'queue') else 'abort'})
         elif t == 'adv':
             ops.append({'t': t, 'dt': g('dt') % len(ADVANCES)})
+    listeners = []
+    for e in (case.get('listeners') if isinstance(case.get('listeners'), list) else [])[:3]:
+        if isinstance(e, list) and len(e) >= 3:
+            listeners.append((_int(e[0]) % len(LISTENER_EVENTS), _int(e[1]) % len(LISTENER_KINDS),
+                              LISTENER_PRIOS[_int(e[2]) % len(LISTENER_PRIOS)]))
     return {
+        'listeners': listeners,
         'dirs': dirs, 'friends': _users(case.get('friends')), 'blocked': blocked,
         'phrases': _phrases(case.get('phrases')), 'behav': behav, 'limit': _int(case.get('limit')) % 2,
         'slots': 1 + (_int(case.get('slots')) - 1) % 3, 'avoid': bool(case.get('avoid')), 'ops': ops,
@@ -557,7 +612,30 @@ def run_case(case) -> CaseResult:
             dpeer = world.add_peer('dp')
             if state['phrases']:
                 world.server.post_login = [M.ExcludedSearchPhrases.Response(list(state['phrases']))]
-            client = await world.start_client(settings)
+            client = world.make_client(settings)
+            # application listeners (the bus holds them weakly: keep them alive here); whatever they do, the
+            # library has to reconcile
+            app_listeners = []
+            import aioslsk.events as events_module
+            for ev, kind, prio in c['listeners']:
+                calls = [0]
+                if LISTENER_KINDS[kind] == 'sync-raises':
+                    def listener(event, calls=calls):
+                        calls[0] += 1
+                        raise RuntimeError('application listener failed')
+                elif LISTENER_KINDS[kind] == 'async-raises':
+                    async def listener(event, calls=calls):
+                        calls[0] += 1
+                        raise RuntimeError('application listener failed')
+                else:
+                    def listener(event, calls=calls):
+                        calls[0] += 1
+                app_listeners.append(listener)
+                client.events.register(getattr(events_module, LISTENER_EVENTS[ev]), listener, priority=prio)
+                res.label(f'listener:{LISTENER_EVENTS[ev]}:{LISTENER_KINDS[kind]}:' +
+                          ('front' if prio < 100 else 'back'))
+            await client.start()
+            await client.login()
             shares = client.shares
             transfers = client.transfers
             await shares.scan()
@@ -1034,26 +1112,32 @@ def run_case(case) -> CaseResult:
                     if changed:
                         await wait_tick_for(u)
                         last_change[u] = loop.time()
-                    if op['add']:
+                    (model.friends.add if op['add'] else model.friends.discard)(u)
+                    if op['assign']:
+                        # replacing the whole set is the other documented way to change the list at run time
+                        client.settings.users.friends = {USERS[x] for x in model.friends}
+                        res.label('friends-assigned')
+                    elif op['add']:
                         client.settings.users.friends.add(USERS[u])
-                        model.friends.add(u)
                     else:
                         client.settings.users.friends.discard(USERS[u])
-                        model.friends.discard(u)
                 elif t == 'block':
                     u = op['u']
                     new = op['flags']
                     if new != model.blocked.get(u, 0):
                         await wait_tick_for(u)
                         last_change[u] = loop.time()
-                    if new == 0 and op['rm']:
-                        client.settings.users.blocked.pop(USERS[u], None)
-                    else:
-                        client.settings.users.blocked[USERS[u]] = BlockingFlag(new)
                     if new:
                         model.blocked[u] = new
                     else:
                         model.blocked.pop(u, None)
+                    if op['assign']:
+                        client.settings.users.blocked = {USERS[x]: BlockingFlag(fl) for x, fl in model.blocked.items()}
+                        res.label('blocked-assigned')
+                    elif new == 0 and op['rm']:
+                        client.settings.users.blocked.pop(USERS[u], None)
+                    else:
+                        client.settings.users.blocked[USERS[u]] = BlockingFlag(new)
                 elif t == 'setmode':
                     if not model.shared:
                         return
